@@ -38,8 +38,8 @@ type exprCase struct {
 	// evaluation that is compared (anything remembered per text must survive,
 	// or be forgotten cleanly, however many other texts the instance has seen)
 	Flood int    `json:"flood,omitempty"`
-	RV    string `json:"rv,omitempty"` // C07 API sample: the ReturnValues parameter of the UpdateItem
-	Debug      bool                `json:"debug,omitempty"`    // C07 API sample: ActivateDebug() before the table is created
+	RV    string `json:"rv,omitempty"`    // C07 API sample: the ReturnValues parameter of the UpdateItem
+	Debug bool   `json:"debug,omitempty"` // C07 API sample: ActivateDebug() before the table is created
 
 	lang *interpreter.Language // one instance per case (nil: a fresh one per call)
 }
